@@ -85,20 +85,48 @@ theorem C02_simplex_wf_ecm (same : Bool) {b1 b2 a1 a2 : Fin n → ℚ} {u1 u2 : 
     ∑ i, (fuseQ f .ecm same b1 u1 a1 b2 u2 a2).1 i + (fuseQ f .ecm same b1 u1 a1 b2 u2 a2).2.1 = 1 := by
   obtain ⟨hA0, hA⟩ := baseRateQ_dist (f := f) .ecm same h1 h2
   have hw := (simplexQ_swf f .ecm h1.swf h2.swf).toWF hA0 hA
-  rw [fuseQ_ecm_of_dist same h1.swf h2.swf hA0 hA]
-  obtain ⟨hs, hu0, hu1, hpos, hge⟩ := C09.C09_max_wf (f := f) hw
-  refine ⟨hpos, hge, fun i => ?_, hu0, hu1, hs⟩
-  -- b i ≤ projected probability ≤ 1
-  have hp := C09.C09_projection_dist hw
-  have hle := Finset.single_le_sum (f := fun j => (simplexQ f .ecm b1 u1 b2 u2).1 j
-      + baseRateQ f .ecm same a1 u1 a2 u2 j * (simplexQ f .ecm b1 u1 b2 u2).2)
-    (fun j _ => hp.1 j) (Finset.mem_univ i)
-  rw [hp.2] at hle
-  have : 0 ≤ baseRateQ f .ecm same a1 u1 a2 u2 i * C09.uhat f (simplexQ f .ecm b1 u1 b2 u2).1
-      (baseRateQ f .ecm same a1 u1 a2 u2) (simplexQ f .ecm b1 u1 b2 u2).2 := mul_nonneg (hA0 i) hu0
-  show C09.bmax f _ _ _ i ≤ 1
-  unfold C09.bmax
-  linarith
+  rw [fuseQ_ecm_of_dist_clamped same h1.swf h2.swf hA0 hA]
+  obtain ⟨_, hu0, hu1, _, _⟩ := C09.C09_max_wf (f := f) hw
+  have hN := C09.normC_ge_one (f := f) hw
+  have hNpos := lt_of_lt_of_le one_pos hN
+  have hb0 : ∀ i, 0 ≤ C09.bmaxC f (simplexQ f .ecm b1 u1 b2 u2).1 (baseRateQ f .ecm same a1 u1 a2 u2)
+      (simplexQ f .ecm b1 u1 b2 u2).2 i / C09.normC f (simplexQ f .ecm b1 u1 b2 u2).1
+        (baseRateQ f .ecm same a1 u1 a2 u2) (simplexQ f .ecm b1 u1 b2 u2).2 :=
+    fun i => div_nonneg (C09.bmaxC_nonneg _ _ _ i) hNpos.le
+  refine ⟨fun i _ => hb0 i, fun i => le_trans (neg_nonpos.mpr (XQ.eps_pos f).le) (hb0 i), fun i => ?_,
+    div_nonneg hu0 hNpos.le, ?_, ?_⟩
+  · show C09.bmaxC f _ _ _ i / C09.normC f _ _ _ ≤ 1
+    rw [div_le_one hNpos]
+    have := Finset.single_le_sum (f := C09.bmaxC f (simplexQ f .ecm b1 u1 b2 u2).1
+        (baseRateQ f .ecm same a1 u1 a2 u2) (simplexQ f .ecm b1 u1 b2 u2).2)
+      (fun j _ => C09.bmaxC_nonneg _ _ _ j) (Finset.mem_univ i)
+    unfold C09.normC; linarith
+  · show C09.uhat f _ _ _ / C09.normC f _ _ _ ≤ 1
+    rw [div_le_one hNpos]; linarith
+  · show ∑ i, C09.bmaxC f _ _ _ i / C09.normC f _ _ _ + C09.uhat f _ _ _ / C09.normC f _ _ _ = 1
+    rw [← Finset.sum_div, ← add_div]
+    exact div_self (ne_of_gt hNpos)
+
+/-- FALSE before repair 8520ade for fused base-rate entries inside the guard band `(0, ε]` (there `p - a û ∈ [-ε, 0)` was
+    returned), true now: EVERY belief mass of an ECm fusion of well-formed opinions is non-negative — all arms, shared
+    base rate or not, no hypothesis on the base rates -/
+theorem C02_ecm_masses_nonneg (same : Bool) {b1 b2 a1 a2 : Fin n → ℚ} {u1 u2 : ℚ}
+    (h1 : WF b1 u1 a1) (h2 : WF b2 u2 a2) (i : Fin n) :
+    0 ≤ (fuseQ f .ecm same b1 u1 a1 b2 u2 a2).1 i := by
+  have hM := ecm_norm2_pos f same h1 h2
+  unfold fuseQ; simp only [if_true]
+  exact div_nonneg (le_max_right _ _) hM.le
+
+/-- the same on the model, for ALL operands of the exact semantics (ill-formed, `±∞`, NaN included): whenever the
+    `max_uncertainty` of the cumulatively fused simplex under the fused base rate does not compare below zero (it is not
+    clamped; see `C09.C09_maximized_needs_umax_notNeg`), no belief mass of the ECm result compares below zero, neither does
+    its uncertainty, and the uncertainty does not compare above one -/
+theorem C02_ecm_masses_nonneg_gen (same : Bool) (l r : Opinion (XQ f) n)
+    (hu : XQ.NotNeg ((computeSimplex .ecm l.simplex r.simplex).maxUncertainty (computeBaseRate .ecm same l r))) :
+    (∀ i : Fin n, XQ.NotNeg (fuse .ecm same l r).b[i]) ∧ XQ.NotNeg (fuse .ecm same l r).u ∧
+    Scalar.lt (Scalar.one : XQ f) (fuse .ecm same l r).u = false := by
+  rw [fuse_ecm_eq]
+  exact C09.C09_maximized_masses_nonneg_gen _ _ hu
 
 /-- ECm, the general form that does not use `Σa = 1` (needed while the `ulps_eq!` shortcut could make the fused base
     rate sum to something else; kept).  Since repair f029db5 (`uncertainty_maximized` renormalises its result)
@@ -120,16 +148,16 @@ theorem C02_simplex_ecm_gen (same : Bool) {b1 b2 a1 a2 : Fin n → ℚ} {u1 u2 :
   set S := simplexQ f .ecm b1 u1 b2 u2 with hSdef
   set A := baseRateQ f .ecm same a1 u1 a2 u2 with hAdef
   have hR : fuseQ f .ecm same b1 u1 a1 b2 u2 a2
-      = (fun i => (projN S.1 A S.2 i - A i * uhatN f S.1 A S.2) / normN f S.1 A S.2,
+      = (fun i => max (projN S.1 A S.2 i - A i * uhatN f S.1 A S.2) 0 / normN f S.1 A S.2,
           uhatN f S.1 A S.2 / normN f S.1 A S.2, A) := by
     unfold fuseQ; simp only [if_true]; rfl
   rw [hR]
   have hU0 : 0 ≤ uhatN f S.1 A S.2 := C09.uhatG_nonneg hS.hb hS.hu hA0 hN
   have hU1 : uhatN f S.1 A S.2 ≤ 1 := C09.uhatG_le_one S.1 A S.2
-  have hE := normN_eq (f := f) (ne_of_gt hN)
+  have hE := normN_ge (f := f) (b := S.1) (a := A) (u := S.2) (ne_of_gt hN)
   have hu0 : 0 ≤ uhatN f S.1 A S.2 / normN f S.1 A S.2 := div_nonneg hU0 hM.le
   have hb2 : uhatN f S.1 A S.2 / normN f S.1 A S.2 * (2 - ∑ i, A i) ≤ 1 := by
-    rw [div_mul_eq_mul_div, div_le_one hM, hE]
+    rw [div_mul_eq_mul_div, div_le_one hM]
     have : uhatN f S.1 A S.2 * (2 - ∑ i, A i)
         = uhatN f S.1 A S.2 * (1 - ∑ i, A i) + uhatN f S.1 A S.2 := by ring
     linarith
@@ -137,7 +165,7 @@ theorem C02_simplex_ecm_gen (same : Bool) {b1 b2 a1 a2 : Fin n → ℚ} {u1 u2 :
   · show uhatN f S.1 A S.2 / normN f S.1 A S.2 ≤ 1
     have : (1 : ℚ) ≤ 2 - ∑ i, A i := by linarith
     nlinarith
-  · show ∑ i, (projN S.1 A S.2 i - A i * uhatN f S.1 A S.2) / normN f S.1 A S.2
+  · show ∑ i, max (projN S.1 A S.2 i - A i * uhatN f S.1 A S.2) 0 / normN f S.1 A S.2
         + uhatN f S.1 A S.2 / normN f S.1 A S.2 = 1
     rw [← Finset.sum_div, ← add_div]
     exact div_self (ne_of_gt hM)
@@ -207,17 +235,26 @@ theorem C02_wf {op : FuseOp} (hop : op ≠ .ecm) (same : Bool) {b1 b2 a1 a2 : Fi
   exact ⟨hb, hu, hs, fun i => (C02_base_rate_unit op same h1 h2 i).1,
     C02_base_rate_sum op same h1 h2⟩
 
-/-- ECm: additionally no fused base-rate entry in the guard band (0, ε] -/
+/-- ECm, since repair 8520ade WITHOUT any hypothesis on the guard band: the clamp removes the masses in `[-ε, 0)` that
+    entries of the fused base rate inside `(0, ε]` used to produce -/
+theorem C02_wf_ecm_unconditional (same : Bool) {b1 b2 a1 a2 : Fin n → ℚ} {u1 u2 : ℚ}
+    (h1 : WF b1 u1 a1) (h2 : WF b2 u2 a2) :
+    WF (fuseQ f .ecm same b1 u1 a1 b2 u2 a2).1 (fuseQ f .ecm same b1 u1 a1 b2 u2 a2).2.1
+      (fuseQ f .ecm same b1 u1 a1 b2 u2 a2).2.2 := by
+  obtain ⟨_, _, _, hu0, _, hs⟩ := C02_simplex_wf_ecm (f := f) same h1 h2
+  exact ⟨C02_ecm_masses_nonneg same h1 h2, hu0, hs, fun i => (C02_base_rate_unit .ecm same h1 h2 i).1,
+    C02_base_rate_sum .ecm same h1 h2⟩
+
+/-- ECm: additionally no fused base-rate entry in the guard band (0, ε] (the hypothesis is no longer needed, see
+    `C02_wf_ecm_unconditional`; statement kept) -/
 theorem C02_wf_ecm (same : Bool) {b1 b2 a1 a2 : Fin n → ℚ} {u1 u2 : ℚ}
     (h1 : WF b1 u1 a1) (h2 : WF b2 u2 a2)
     (hband : ∀ i, (fuseQ f .ecm same b1 u1 a1 b2 u2 a2).2.2 i = 0 ∨
       f.eps < (fuseQ f .ecm same b1 u1 a1 b2 u2 a2).2.2 i) :
     WF (fuseQ f .ecm same b1 u1 a1 b2 u2 a2).1 (fuseQ f .ecm same b1 u1 a1 b2 u2 a2).2.1
       (fuseQ f .ecm same b1 u1 a1 b2 u2 a2).2.2 := by
-  obtain ⟨hA0, hA⟩ := baseRateQ_dist (f := f) .ecm same h1 h2
-  have hw := (simplexQ_swf f .ecm h1.swf h2.swf).toWF hA0 hA
-  rw [fuseQ_ecm_of_dist same h1.swf h2.swf hA0 hA] at hband ⊢
-  exact C09.max_WF hw hband
+  have _ := hband
+  exact C02_wf_ecm_unconditional same h1 h2
 
 /-- THE BASE-RATE CLAUSES ON THE MODEL, NO HYPOTHESIS BEYOND WELL-FORMEDNESS: `fuse` (any operator, any guard arm,
     tolerance bands included, shared base-rate object or not) returns finite data whose base rate lies entrywise
